@@ -255,6 +255,12 @@ fn mutating_bodies() -> Vec<(&'static str, String)> {
         ("closures collected in a for loop that breaks", "fs := []\nfor [i, v] in [10, 20, 30] {\nd := v\nfs += [fn () {\nreturn d\n}]\nif i == 1 {\nbreak\n}\n}\nprint(fs[0]())\nprint(fs[1]())\n"),
         ("closures collected in a while loop", "fs := []\nn := 0\nwhile n < 3 {\nn += 1\nd := n * 10\nfs += [fn () {\nd += 1\nreturn d\n}]\n}\nprint(fs[0]())\nprint(fs[2]())\nprint(fs[0]())\n"),
         ("function defined in a loop body", "for [i, v] in [1, 2] {\nfn double() {\nreturn v * 2\n}\nprint(double())\n}\n"),
+        ("range bound changed by the body", "n := 3\nfor [i, v] in 0 .. n {\nprint(v)\nn += 2\n}\nprint(n)\nm := 0\nfor v in m .. 3 {\nm += 1\nprint([v, m])\n}\n"),
+        ("range bound is a call", "calls := 0\nfn hi() {\ncalls += 1\nreturn 3\n}\nfor v in 0 .. hi() {\nprint(v)\n}\nprint(calls)\nfor [i, v] in hi() - 3 .. hi() - 1 {\nprint(v)\n}\nprint(calls)\n"),
+        ("iterable is a call", "calls := 0\nfn items() {\ncalls += 1\nreturn [1, 2, 3]\n}\nfor v in items() {\nprint(v)\n}\nprint(calls)\nfor [k, v] in {\"a\": items()} {\nprint(v)\n}\nprint(calls)\nfor c in $\"${items()[0]->type()}\" {\nprint(c)\n}\nprint(calls)\n"),
+        ("range bound shrinks", "n := 5\nfor v in 0 .. n {\nn = 1\nprint(v)\n}\nprint(n)\n"),
+        ("range bound read from an element", "b := [4]\nfor v in 1 .. b[0] {\nb[0] = 2\nprint(v)\n}\nprint(b)\no := {\"hi\": 2}\nfor v in 0 .. o.hi {\no.hi += 5\nprint(v)\n}\nprint(o)\n"),
+        ("range bounds in a function", "fn upto(n) {\nout := []\nfor v in 0 .. n {\nn -= 1\nout += [v]\n}\nreturn [out, n]\n}\nprint(upto(4))\n"),
         ("empty iterables", "for e in [] {\nprint(\"no\")\n}\nfor e in \"\" {\nprint(\"no\")\n}\nfor e in {} {\nprint(\"no\")\n}\nfor e in 3 .. 3 {\nprint(\"no\")\n}\nprint(\"done\")\n"),
     ];
     for (n, s) in lists {
